@@ -510,7 +510,19 @@ def check_handlers(ctx, falcon, testing, model):
 
 # ------------------------------------------------------------------ response render cache
 
+class MObj:
+    """A media object: identity k, content = number of in-place amendments so far."""
+    def __init__(self, k):
+        self.k = k
+        self.ver = 0
+
+
 def check_response(ctx, falcon, model):
+    """resp.media / text / data / render_body sessions on the real Response classes with a serializer
+    that records the CONTENT it saw.  Media objects are re-assigned (the SAME object again, or an earlier
+    one) and amended in place between renders: a render after an assignment must show the content the
+    object has at serialization time, an assignment always invalidates the cached rendering, an
+    amendment without re-assignment leaves the body as rendered."""
     import falcon.asgi
     from falcon.media.base import BaseHandler
     rng = ctx.rng
@@ -521,18 +533,34 @@ def check_response(ctx, falcon, model):
             self.calls = []
 
         def serialize(self, media, content_type=None):
-            self.calls.append(media.k)
-            return b'M%d' % media.k
+            self.calls.append((media.k, media.ver))
+            return b'M%d.%d' % (media.k, media.ver)
 
         async def serialize_async(self, media, content_type=None):
-            self.calls.append(media.k)
-            return b'M%d' % media.k
+            self.calls.append((media.k, media.ver))
+            return b'M%d.%d' % (media.k, media.ver)
 
         def deserialize(self, *a):
             raise NotImplementedError
 
+    def body_obs(b):
+        if b is None:
+            return [0]
+        tag = {'T': 1, 'D': 2, 'M': 3}.get(b[:1].decode(), 9)
+        if tag == 3:
+            k, v = b[1:].split(b'.')
+            return [3, int(k), int(v)]
+        return [tag, int(b[1:])]
+
+    scripted = [   # the seeded-mutant shape first: render early, amend in place, assign the same object again
+        ['new', 'render', 'mutate-cur', 'same', 'render'],
+        ['new', 'render', 'mutate-cur', 'render', 'same', 'render', 'render'],
+        ['new', 'same', 'render', 'mutate-cur', 'mutate-cur', 'same', 'render'],
+        ['new', 'render', 'new', 'render', 'old', 'render', 'mutate-cur', 'old', 'render'],
+        ['new', 'render', 'mutate-cur', 'text', 'render', 'notext', 'render', 'same', 'render'],
+    ]
     cases, metas = [], []
-    for _ in range(n):
+    for it in range(n):
         asgi = rng.random() < 0.5
         h = Ser()
         opts = falcon.ResponseOptions()
@@ -540,44 +568,64 @@ def check_response(ctx, falcon, model):
         opts.default_media_type = 'application/x-test'
         resp = (falcon.asgi.Response if asgi else falcon.Response)(options=opts)
         ops, obs = [], []
-        for i in range(rng.randint(1, 10)):
+        objs = []
+        cur = None
+        script = scripted[it // 2] if it < 2 * len(scripted) else None
+        steps = script if script else [None] * rng.randint(1, 14)
+        for i, st in enumerate(steps):
             r = rng.random()
-            if r < 0.3:
-                v = None if rng.random() < 0.15 else i
-                resp.media = None if v is None else Obj(v)
-                ops.append([0, [] if v is None else [v]])
+            if st is None:
+                st = ('new' if r < 0.12 else 'same' if r < 0.22 else 'old' if r < 0.28 else 'none' if r < 0.31 else
+                      'mutate-cur' if r < 0.43 else 'mutate-any' if r < 0.48 else 'text' if r < 0.53 else
+                      'notext' if r < 0.57 else 'data' if r < 0.62 else 'nodata' if r < 0.66 else 'render')
+            if st in ('same', 'mutate-cur') and cur is None or st in ('old', 'mutate-any') and not objs:
+                st = 'new'
+            if st in ('new', 'same', 'old', 'none'):
+                if st == 'new':
+                    cur = MObj(len(objs))
+                    objs.append(cur)
+                elif st == 'old':
+                    cur = rng.choice(objs)
+                elif st == 'none':
+                    cur = None
+                resp.media = cur
+                ops.append([0, [] if cur is None else [cur.k]])
                 obs.append([])
-            elif r < 0.42:
-                v = None if rng.random() < 0.4 else i
-                resp.text = None if v is None else 'T%d' % v
-                ops.append([1, [] if v is None else [v]])
+            elif st in ('mutate-cur', 'mutate-any'):
+                o = cur if st == 'mutate-cur' else rng.choice(objs)
+                o.ver += 1
+                ops.append([4, o.k])
                 obs.append([])
-            elif r < 0.54:
-                v = None if rng.random() < 0.4 else i
-                resp.data = None if v is None else b'D%d' % v
-                ops.append([2, [] if v is None else [v]])
+            elif st in ('text', 'notext'):
+                resp.text = None if st == 'notext' else 'T%d' % i
+                ops.append([1, [] if st == 'notext' else [i]])
+                obs.append([])
+            elif st in ('data', 'nodata'):
+                resp.data = None if st == 'nodata' else b'D%d' % i
+                ops.append([2, [] if st == 'nodata' else [i]])
                 obs.append([])
             else:
                 b = run_coro(resp.render_body()) if asgi else resp.render_body()
                 ops.append([3])
-                if b is None:
-                    obs.append([0])
-                else:
-                    tag = {'T': 1, 'D': 2, 'M': 3}.get(b[:1].decode(), 9)
-                    obs.append([tag, int(b[1:])])
+                obs.append(body_obs(b))
         cases.append([5, ops])
-        metas.append((asgi, ops, obs, len(h.calls)))
+        metas.append((asgi, ops, obs, len(h.calls), [list(c) for c in h.calls]))
     outs = model.run_many(cases)
     fails = model.run_many([[6, m[1], m[2], m[3]] for m in metas])
     for m, o, f in zip(metas, outs, fails):
-        asgi, ops, obs, ns = m
+        asgi, ops, obs, ns, calls = m
         ctx.note_case(('resp', asgi, json.dumps(ops)), any(op[0] == 3 for op in ops) and any(op[0] == 0 for op in ops))
         ctx.count('resp-asgi' if asgi else 'resp-wsgi')
-        detail = {'asgi': asgi, 'ops(0=media,1=text,2=data,3=render_body)': ops, 'observed_bodies': obs,
-                  'serialize_calls': ns, 'model': o}
+        if any(op[0] == 4 for op in ops):
+            ctx.count('resp-with-in-place-mutation')
+        detail = {'asgi': asgi, 'ops(0=media obj,1=text,2=data,3=render_body,4=amend obj in place)': ops,
+                  'observed_bodies(3 k v = object k serialized with content version v)': obs,
+                  'serialize_calls': ns, 'serializer_saw': calls, 'model': o}
         if f:
             ctx.violation('render-cache-clause', dict(detail, clauses_failed=f,
-                          clause_names={1: 'body differs from text>data>current media', 2: 'media serialized more than once per assignment'}),
+                          clause_names={1: 'body differs from text>data>media as of the first render after the latest assignment '
+                                           '(stale rendering after a re-assignment, or a rendering that changed without one)',
+                                        2: 'media serialized more than once per assignment'}),
                           key='resp-%s' % f)
         elif o != [obs, ns]:
             ctx.violation('correspondence-broken', dict(detail, broken='C12.render_body_corr'), found_input=False,
@@ -1413,6 +1461,93 @@ def form_expected(m):
     return exp
 
 
+def check_e2e_reassign(ctx, falcon, testing):
+    """Through real WSGI and ASGI apps with the real JSON handler: the body is rendered early (by the
+    responder itself or by a middleware's process_response), the document is amended IN PLACE, and then
+    either assigned to resp.media again (the client must receive the amended document) or not (the client
+    receives the early rendering: by design, and stated so in Spec.qstep)."""
+    import falcon.asgi
+    rng = ctx.rng
+    n = 60 if ctx.tier == 'quick' else 600
+    plan = {}
+
+    def amend(doc):
+        if isinstance(doc, dict):
+            doc['amended'] = doc.get('amended', 0) + 1
+        else:
+            doc.append('amended')
+
+    class Early:
+        """process_response runs after the responder: render, amend, maybe re-assign."""
+        def process_response(self, req, resp, resource, req_succeeded):
+            if plan.get('where') == 'middleware':
+                resp.render_body()
+                amend(plan['doc'])
+                if plan['reassign']:
+                    resp.media = plan['doc']
+
+        async def process_response_async(self, req, resp, resource, req_succeeded):
+            if plan.get('where') == 'middleware':
+                await resp.render_body()
+                amend(plan['doc'])
+                if plan['reassign']:
+                    resp.media = plan['doc']
+
+    class R:
+        def on_get(self, req, resp):
+            resp.media = plan['doc']
+            if plan['where'] == 'responder':
+                resp.render_body()
+                amend(plan['doc'])
+                if plan['reassign']:
+                    resp.media = plan['doc']
+
+    class AR:
+        async def on_get(self, req, resp):
+            resp.media = plan['doc']
+            if plan['where'] == 'responder':
+                await resp.render_body()
+                amend(plan['doc'])
+                if plan['reassign']:
+                    resp.media = plan['doc']
+
+    wapp = falcon.App(middleware=[Early()])
+    wapp.add_route('/', R())
+    aapp = falcon.asgi.App(middleware=[Early()])
+    aapp.add_route('/', AR())
+    clients = {'wsgi': testing.TestClient(wapp), 'asgi': testing.TestClient(aapp)}
+    for i in range(n):
+        for kind, cl in clients.items():
+            doc = gen_ffdoc(rng, maxdepth=2)
+            while not isinstance(doc, (dict, list)):
+                doc = gen_ffdoc(rng, maxdepth=2)
+            before = json.loads(json.dumps(doc))
+            plan.clear()
+            plan.update(doc=doc, where=rng.choice(['responder', 'middleware']), reassign=rng.random() < 0.6)
+            r = cl.simulate_get('/')
+            expected = doc if plan['reassign'] else before
+            ctx.note_case(('e2e-reassign', kind, i), True)
+            ctx.count('e2e-reassign-' + ('same-object-reassigned' if plan['reassign'] else 'amended-not-reassigned'))
+            got = None
+            try:
+                got = json.loads(r.content.decode())
+            except ValueError:
+                pass
+            if r.status_code != 200 or canon(got) != canon(expected):
+                detail = {'interface': kind, 'rendered_early_in': plan['where'], 'reassigned': plan['reassign'],
+                          'doc_before_amendment': repr(before)[:300], 'doc_after_amendment': repr(doc)[:300],
+                          'body': repr(r.content[:300]), 'status': r.status_code}
+                if plan['reassign']:
+                    ctx.violation('render-cache-clause',
+                                  dict(detail, what='resp.media was assigned again (same object, amended in place) after an early '
+                                                    'render, but the client received the stale early rendering',
+                                       clauses_failed=[1]), key='e2e-reassign-stale')
+                else:
+                    ctx.violation('correspondence-broken',
+                                  dict(detail, broken='C12.render_body_corr (amendment without re-assignment changed the body)'),
+                                  found_input=False, key='e2e-noreassign')
+
+
 def main(ctx):
     import falcon
     from falcon import testing
@@ -1431,4 +1566,5 @@ def main(ctx):
     check_handlers(ctx, falcon, testing, model)
     check_response(ctx, falcon, model)
     check_e2e(ctx, falcon, testing)
+    check_e2e_reassign(ctx, falcon, testing)
     check_codec(ctx, falcon, model)
